@@ -115,13 +115,17 @@ def handleSwap (cfgsS scriptsS opsS : String) (obs : List String) : Answer :=
       let sc : Scenario := { cfgs, scripts, ops }
       match sc.trace, obs with
       | some trace, [implS] =>
-        let model := encList "," (trace.map renderObs)
+        -- run-time cross-check of what `C15_scenario_meets_spec` assumes / what is not proved in its
+        -- strict form: every call of the model's run completed, and the model's own trace satisfies
+        -- the STRICT specification (the configuration in force at `begin`)
+        let modelOk := (specTrace cfgs true trace).isNone
+        let model := (if modelOk then "" else "MODEL-VIOLATES-SPEC:") ++ encList "," (trace.map renderObs)
         match mapM? decObs (decList ',' implS) with
         | none =>
           { model, spec := if implS = "PANIC" then "FAIL:panic;sig=C15/swap-panic" else "FAIL:unreadable observation;sig=C15/swap-observation",
             tags := ["swap"] }
         | some implTrace =>
-          let spec := match specTrace cfgs implTrace with
+          let spec := match specTrace cfgs true implTrace with
             | none => "ok"
             | some why => "FAIL:" ++ why ++ ";sig=C15/swap-" ++ String.ofList (why.toList.takeWhile (fun c => c.isAlpha))
           let (inside, maxRun) := countSwapsInRecords trace
@@ -284,6 +288,8 @@ def pathKindTags (pk : String) (stepsS : String) : Option (List String) :=
   | "f" => some rp
   | "l" => some ("path-symlink-file" :: rp)
   | "d" => some ("path-symlink-dir" :: rp)
+  | "j" => some ("format-json" :: rp)
+  | "t" => some ("format-toml" :: rp)
   | _ => none
 
 /-- a file view whose poll makes the loop call `handle_error` -/
@@ -362,11 +368,11 @@ def handleReload (docsS initS stepsS : String) (obs : List String) : Answer :=
                     | some st1 =>
                       let i1 : PollObs := { action := .unchanged, active := st1.active, rate := st1.rate, alive := st1.alive }
                       (specHistory2 parseDoc forget v1 v2 i1 (List.zip views (obsOfStates (pollAll parseDoc codeFixed st1 views)))).isNone
-                    | none => false
+                    | none => true      -- "stat, then read" would not even have started on this pair
                   let cls := if fixedOk ∧ implS = model ∧ tags.contains "mtime-consumed-by-failed-read"
                     then "reload-mtime-consumed-by-failed-read"
                     else if edit.isSome ∧ implS = model ∧ statFirstOk ∧ !initStatsBeforeRead then "init-read-then-stat"
-                    else if pk ≠ "f" ∧ why = "changed-not-applied" then "symlink-target-edit-not-seen"
+                    else if (pk = "l" ∨ pk = "d") ∧ why = "changed-not-applied" then "symlink-target-edit-not-seen"
                     else "reload-" ++ String.ofList (why.toList.takeWhile (fun c => c.isAlpha || c == '-'))
                   s!"FAIL:{why} at poll {i};sig=C15/{cls}"
               { model, spec, tags }
@@ -458,7 +464,7 @@ def handleHistory (docs : List Doc) (hist : String) (implS : String) : Option Hi
                     let cls :=
                       if edit.isSome ∧ implS = model ∧ !initStatsBeforeRead then "init-read-then-stat"
                       else if ek = "p" ∧ reportedBefore then "poll-loop-dies-on-error-report"
-                      else if pk ≠ "f" ∧ why = "changed-not-applied" then "symlink-target-edit-not-seen"
+                      else if (pk = "l" ∨ pk = "d") ∧ why = "changed-not-applied" then "symlink-target-edit-not-seen"
                       else "thread-" ++ String.ofList (why.toList.takeWhile (fun c => c.isAlpha || c == '-'))
                     some s!"{why} at step {i};sig=C15/{cls}"
                 | _, _ => some "unreadable observation;sig=C15/thread-observation"
